@@ -9,7 +9,7 @@
     [st_supply] is the model's bank supply (mint / burn), [st_win] the ghost "incoming amount
     completed since the last window reset".  Asset parameters do not change inside a history
     (there is no parameter-update operation; [reachable_invariant] states [st_params] stays [P]). *)
-From Irismod Require Import Htlc.Model Htlc.Proofs Htlc.Examples Htlc.Check Htlc.Sound Htlc.Passes Htlc.PassesEx.
+From Irismod Require Import Htlc.Model Htlc.Proofs Htlc.Examples Htlc.Check Htlc.Sound Htlc.Passes Htlc.PassesEx Htlc.ParamChange.
 
 (** ** Inv_C04 holds in every reachable state (induction over the history: [Inv] holds at
     genesis and is preserved by every message and every block boundary) *)
@@ -119,6 +119,51 @@ Theorem c04_checked_states_satisfy_invariant :
     /\ st_params (case_state k n) = k_params k.
 Proof. exact checked_states_satisfy_invariant. Qed.
 Print Assumptions c04_checked_states_satisfy_invariant.
+
+(** ** Asset-parameter changes ([set_params] = the effect of Keeper.SetParams on the state; see
+    Htlc/ParamChange.v; model only — MsgUpdateParams is not part of the generated histories).
+    inv_C04_after_param_change: whatever the new values (limits, time-based limit, period, active flag,
+    deputy, fixed fee, swap bounds, lock bounds), as long as the supported denoms stay the same, the
+    counters still equal the sums, escrow still equals the open contracts, bank supply = current,
+    outgoing <= current, and the queue / log clauses hold ([InvCore]). *)
+Theorem inv_C04_after_param_change :
+  forall s P', InvCore s -> same_denoms (st_params s) P' -> InvCore (set_params s P').
+Proof. exact inv_core_after_param_change_lemma. Qed.
+Print Assumptions inv_C04_after_param_change.
+
+Theorem inv_core_of_invariant : forall s, Inv s -> InvCore s.
+Proof. exact inv_core_of_inv. Qed.
+Print Assumptions inv_core_of_invariant.
+
+(** the limit inequalities survive a change whose new limits cover the current usage ([covers]; e.g.
+    limits only raised: [raise_covers]); then the whole invariant holds again, for every history after it *)
+Theorem inv_C04_after_compatible_param_change :
+  forall s P' ops, Inv s -> Strict s -> same_denoms (st_params s) P' -> covers s P' -> Forall wf_op ops ->
+    Inv (run (set_params s P') ops) /\ Strict (run (set_params s P') ops) /\ st_params (run (set_params s P') ops) = P'.
+Proof. exact run_after_compatible_param_change. Qed.
+Print Assumptions inv_C04_after_compatible_param_change.
+
+Theorem raising_limits_is_compatible :
+  forall s P', Inv s ->
+    (forall d p p', get_param (st_params s) d = Some p -> get_param P' d = Some p' ->
+       ap_limit p <= ap_limit p' /\ ap_tl p' = ap_tl p /\ ap_tbl p <= ap_tbl p') ->
+    same_denoms (st_params s) P' -> covers s P'.
+Proof. exact raise_covers. Qed.
+Print Assumptions raising_limits_is_compatible.
+
+(** ... and they do NOT survive an arbitrary change: after a limit cut below current + incoming the
+    claim of an open incoming transfer with the right secret is rejected (so [limits_respected] and
+    [claim_iff_preimage] are statements about histories with unchanged parameters, as C04 says),
+    while the counters still equal the sums. *)
+Theorem claim_may_fail_after_limit_cut :
+  let s := run (init exP exB (ts0 * ns)) [Create (mkCreate 3 0 [(0, 200)] (8, ts0) ts0 50 true)] in
+  Inv s /\ same_denoms (st_params s) exCut
+  /\ (exists c, get id2 (st_contracts s) = Some c /\ c_state c = Open /\ secret_ok c 8 = true)
+  /\ step_ok s (Claim 0 id2 8) = true
+  /\ step_ok (set_params s exCut) (Claim 0 id2 8) = false
+  /\ InvCore (set_params s exCut).
+Proof. exact claim_may_fail_after_limit_cut_lemma. Qed.
+Print Assumptions claim_may_fail_after_limit_cut.
 
 (** ** model_passes_check: the checker, fed the MODEL's own observations, answers (-1, -1, 0) for both
     properties.  [Vw k nd s code o] says that the observation [o] is the projection of the model state
